@@ -1,5 +1,6 @@
 import Dcg.Proofs.Imports
 import Dcg.Proofs.Cover
+import Dcg.Proofs.Types
 /-
 C02 — emitted modules execute: every name is bound before it is needed.
 Only property theorems live here; helper lemmas are in Dcg/Proofs/Imports.lean (and
@@ -94,6 +95,16 @@ theorem imports_cover_hint_partial (o : Opts) (t : DT) (hc : coverOK o t = true)
   have := cover_tree o t hc n hn ht
   rw [(imports_congr o t hf true).2] at this
   exact this
+
+/-- Typing spelling (`use_union_operator = False`), names plain (`wfTree`, C13): the flag hypothesis
+is discharged by `typeHint_typing` (C13) — the text `type_hint` writes is the printed form of the
+expression whose names are covered. -/
+theorem imports_cover_hint_typing (o : Opts) (ho : o.unionOp = false) (t : DT) (hw : wfTree t = true)
+    (hc : coverOK o t = true) :
+    (typeHint o t).1 = Dcg.Sem.Typing.print (hintE o t).1 ∧
+    ∀ n ∈ namesOf (hintE o t).1, n ∈ typingNames → n ∈ impNames (allImports o true t) :=
+  ⟨by rw [(Dcg.Proofs.Types.typeHint_typing o ho t hw).1],
+   imports_cover_hint_partial o t hc (Dcg.Proofs.Types.flagsAgree_typing o ho t hw)⟩
 
 /-- non-vacuity: `Optional[Dict[str, List[Union[int, Literal['a']]]]]`, all eight spellings -/
 example : ∀ o : Opts,
